@@ -415,14 +415,14 @@ func script(p Plan, out *vk.Outcome) error {
 	wg.Wait() // a call that never returns makes the bubble deadlock here
 
 	// ------------------------------------------------------------------ history oracle
-	var closeCall, rcloseCall int64
+	var closeCall, rcloseCall, rcloseRet int64
 	closeIsErr := false
 	for _, r := range w.ops {
 		if r.op == "close" {
 			closeCall, closeIsErr = r.call, r.val == 1
 		}
 		if r.op == "rclose" {
-			rcloseCall = r.call
+			rcloseCall, rcloseRet = r.call, r.ret
 		}
 	}
 	sent := map[int]*opRec{}
@@ -482,6 +482,16 @@ func script(p Plan, out *vk.Outcome) error {
 				}
 			}
 		case "send", "trysend":
+			if r.op == "trysend" && r.err == nil && (closeCall == 0 || r.call < closeCall) { // (a TrySend that starts after the sender's own Close is misuse)
+				// documented: "If the receiver is already closed, returns ErrClosedPipe. If ctx expires before x
+				// can be sent, returns ctx.Err()" - TrySend checks these before it tries to send.
+				if rcloseRet != 0 && r.call > rcloseRet {
+					return vk.Violf("trysend-on-closed-pipe", "TrySend(%d) was called after the receiver's Close had returned and reported (%v, nil) instead of ErrClosedPipe", r.val, r.ok)
+				}
+				if r.ctx == -1 {
+					return vk.Violf("trysend-expired-ctx", "TrySend(%d) with an already cancelled context reported (%v, nil) instead of the context's error", r.val, r.ok)
+				}
+			}
 			if r.err == nil {
 				continue
 			}
